@@ -11,8 +11,8 @@ from pv.props.common import short
 from pv.ref import lex as rlex
 
 ID = 'C08'
-TECHNIQUE = 'bounded-exhaustive enumeration of all strings over a 24-symbol delimiter/blank alphabet plus Hypothesis-generated lines; tiling invariants on the produced tokens and token-by-token differential against a hand-written reference scanner (both lexing patterns, str and list-of-lines input)'
-RULE = ('cases: every string of length <= L over 24 symbols (( ) / : ~ " \\ # , . e E 1 a, the six ASCII blanks, NBSP, U+3000, '
+TECHNIQUE = 'bounded-exhaustive enumeration of all strings over a 25-symbol delimiter/blank alphabet plus Hypothesis-generated lines; tiling invariants on the produced tokens and token-by-token differential against a hand-written reference scanner (both lexing patterns, str and list-of-lines input)'
+RULE = ('cases: every string of length <= L over 25 symbols (( ) / : ~ " \\ # , . e E 1 a, the six ASCII blanks, NBSP, U+3000, '
         'U+2028, U+0085) and random longer lines/texts; each lexed with the graph pattern and the triple pattern, as one str '
         'and as a list of lines with their terminators. Non-trivial: >= 2 tokens or >= 1 character not covered by a token. '
         'Distinct by string.')
@@ -21,7 +21,7 @@ ASSUMPTIONS = ['a line ends at LF, CRLF or CR only; list-of-lines input carries 
                'speaks of blanks outside strings and comments']
 
 ALPHA = ['(', ')', '/', ':', '~', '"', '\\', '#', ',', '.', 'e', 'E', '1', 'a',
-         ' ', '\t', '\r', '\n', '\x0b', '\x0c', '\xa0', '\u3000', '\u2028', '\x85']
+         '\u0663', ' ', '\t', '\r', '\n', '\x0b', '\x0c', '\xa0', '\u3000', '\u2028', '\x85']
 ASCII_BLANK = ' \t\r\n\x0b\x0c'
 
 
